@@ -67,13 +67,51 @@ FWExplains(cfg, s, c, r) ==
       [] OTHER -> FALSE
 FWAfter(cfg, s, c) == IF c.op = "set" THEN Append(s, <<c.a.i, c.a.v>>) ELSE s
 
+\* ---- bitencbig: vectors of 10^5 .. 10^7 elements, kept run-length encoded: s = sequence of <<count, value>>
+RLen(s) == LET RECURSIVE F(_)
+               F(k) == IF k > Len(s) THEN 0 ELSE s[k][1] + F(k + 1)
+           IN F(1)
+RECURSIVE RGetFrom(_, _, _)
+RGetFrom(s, k, i) == IF k > Len(s) THEN -1                      \* beyond the end: None
+                     ELSE IF i < s[k][1] THEN s[k][2] ELSE RGetFrom(s, k + 1, i - s[k][1])
+RGet(s, i) == RGetFrom(s, 1, i)
+RECURSIVE RSetFrom(_, _, _, _)
+RSetFrom(s, k, i, v) ==          \* split run k around position i
+    IF k > Len(s) THEN s
+    ELSE IF i < s[k][1]
+         THEN SubSeq(s, 1, k - 1)
+              \o (IF i > 0 THEN << <<i, s[k][2]>> >> ELSE << >>)
+              \o << <<1, v>> >>
+              \o (IF s[k][1] - i - 1 > 0 THEN << <<s[k][1] - i - 1, s[k][2]>> >> ELSE << >>)
+              \o SubSeq(s, k + 1, Len(s))
+         ELSE RSetFrom(s, k + 1, i - s[k][1], v)
+BBExplains(cfg, s, c, r) ==
+    CASE c.op = "new" -> r.st = "ok"
+      [] c.op \in {"push", "push_values", "clear"} -> r.st = "ok"
+      [] c.op = "set" -> r.st = "ok" /\ c.a.i < RLen(s)
+      [] c.op = "probe" ->                      \* nr_symbols, nr_blocks and get() at chosen indices
+           /\ r.st = "ok"
+           /\ r.len = RLen(s)
+           /\ r.blocks = BlocksFor(RLen(s), RealB, cfg.w)
+           /\ Len(r.gets) = Len(c.a.idx)
+           /\ \A k \in 1..Len(c.a.idx) : r.gets[k] = RGet(s, c.a.idx[k])
+      [] OTHER -> FALSE
+BBAfter(cfg, s, c) ==
+    CASE c.op = "push"        -> Append(s, <<1, Masked(c.a.v, cfg.w)>>)
+      [] c.op = "push_values" -> IF c.a.n = 0 THEN s ELSE Append(s, <<c.a.n, Masked(c.a.v, cfg.w)>>)
+      [] c.op = "set"         -> RSetFrom(s, 1, c.a.i, Masked(c.a.v, cfg.w))
+      [] c.op = "clear"       -> << >>
+      [] OTHER                -> s
+
 Explains(fam, cfg, s, e) ==
     CASE fam = "bitenc"    -> BEExplains(cfg, s, e.c, e.r)
+      [] fam = "bitencbig" -> BBExplains(cfg, s, e.c, e.r)
       [] fam = "smallints" -> SIExplains(cfg, s, e.c, e.r)
       [] fam = "fenwick"   -> FWExplains(cfg, s, e.c, e.r)
       [] OTHER -> FALSE
 After(fam, cfg, s, e) ==
     CASE fam = "bitenc"    -> BEAfter(cfg, s, e.c)
+      [] fam = "bitencbig" -> BBAfter(cfg, s, e.c)
       [] fam = "smallints" -> SIAfter(cfg, s, e.c, e.r)
       [] fam = "fenwick"   -> FWAfter(cfg, s, e.c)
       [] OTHER -> s
